@@ -30,6 +30,7 @@
 #define _RATIONAL_H_
 
 #include <numeric>
+#include <stdexcept>
 #include <vector>
 #include <string>
 #include "soplex/spxdefines.h"
@@ -221,7 +222,10 @@ inline Rational ratFromString(const char* desc)
                den.append("0");
 
             s.erase(pos, 1);
-            assert(std::all_of(s.begin() + 1, s.end(), ::isdigit));
+            // the string comes from an input file: malformed numbers are reported to the caller, not asserted
+            if(!std::all_of(s.begin() + 1, s.end(), ::isdigit))
+               throw std::invalid_argument("not a decimal number");
+
 
             // remove padding 0s
             if(s[0] == '-')
